@@ -21,7 +21,18 @@ ASSUMPTIONS = ["ref/rsa.py self-test (RSA Labs oaep-int vector, OpenSSL v1.5 vec
                "or 0 if unknown'",
                "constant-time behaviour is not observed"]
 
-HASHES = {"sha1": ("SHA1", 20), "sha256": ("SHA256", 32), "sha512": ("SHA512", 64), "sha3_256": ("SHA3_256", 32)}
+HASHES = {"sha1": ("SHA1", 20), "sha256": ("SHA256", 32), "sha512": ("SHA512", 64), "sha3_256": ("SHA3_256", 32),
+          # SHA-512/t exists only as an OBJECT, SHA512.new(truncate=t): its module describes another hash (digest_size 64)
+          "sha512_256": ("SHA512", 32), "sha512_224": ("SHA512", 28)}
+
+
+class TruncatedSHA512:
+    """stands where the monitor keeps a hash MODULE; the library is always given an object made by new()"""
+    def __init__(self, mod, t):
+        self.mod, self.t, self.digest_size = mod, t, int(t) // 8
+
+    def new(self, data=None):
+        return self.mod.new(data=data, truncate=self.t)
 LABEL_LENS = (0, 1, 100)
 MGFS = ("default", "mgf1-other", "shake")
 ES = (3, 17, 65537)
@@ -74,7 +85,8 @@ DECIDING = ["roundtrip:v15", "roundtrip:oaep:sha1", "roundtrip:oaep:sha256", "ro
             "wrapper_cases:v15", "wrapper_cases:oaep", "exhaustive14:wrapper", "exhaustive14:decrypt",
             "refused_too_long:v15", "refused_too_long:oaep", "refused_bad_length", "refused_out_of_range",
             "first_byte_ff_patterns", "odd_size_keys", "keys_built", "tiny_done", "x14_done", "modulus_11_bytes_roundtrips",
-            "retained_results_checked", "oaep_smallest_modulus:sha1", "oaep_smallest_modulus:sha256", "oaep_smallest_modulus:sha512"]
+            "retained_results_checked", "oaep_smallest_modulus:sha1", "oaep_smallest_modulus:sha256", "oaep_smallest_modulus:sha512",
+            "oaep_smallest_modulus:sha512_256", "oaep_smallest_modulus:sha512_224"]
 
 
 def finalize(agg, tier):
@@ -108,6 +120,8 @@ def _load(ctx):
     from Crypto.Signature import pss
     L.RSA, L.OAEP, L.V15, L.W, L.pss, L.hashlib = RSA, PKCS1_OAEP, PKCS1_v1_5, _pkcs1_oaep_decode, pss, hashlib
     L.H = {name: importlib.import_module("Crypto.Hash." + mod) for name, (mod, _) in HASHES.items()}
+    for name in ("sha512_256", "sha512_224"):
+        L.H[name] = TruncatedSHA512(L.H[name], name[-3:])
     return L
 
 
@@ -419,7 +433,7 @@ class OaepCfg:
         self.hname, self.label, self.mgf_kind = hname, bytes(label), mgf_kind
         self.hlen = HASHES[hname][1]
         H = L.H[hname]
-        self.hash_arg = H.new() if form % 4 == 3 else H          # module, or an existing hash object
+        self.hash_arg = H.new() if (form % 4 == 3 or isinstance(H, TruncatedSHA512)) else H          # module, or an existing hash object
         self.label_arg = as_buf(label, form)
         if mgf_kind == "default":
             self.mgfunc = None
